@@ -67,10 +67,16 @@ func HasExtension(msg interface{}, ext interface{}) bool {
 		if !ok {
 			return false
 		}
+		if checkExtendeeV1(msg.(google.Message), ed) != nil {
+			return false
+		}
 		return google.HasExtension(msg.(google.Message), ed)
 	case MessageTypeGoogle:
 		et, ok := ext.(protoreflect.ExtensionType)
 		if !ok {
+			return false
+		}
+		if checkExtendee(msg.(googlev2.Message), et) != nil {
 			return false
 		}
 		return googlev2.HasExtension(msg.(googlev2.Message), et)
@@ -93,12 +99,12 @@ func HasExtension(msg interface{}, ext interface{}) bool {
 func ClearExtension(msg interface{}, ext interface{}) {
 	switch MsgType(msg) {
 	case MessageTypeGoogleV1:
-		if ed, ok := ext.(*google.ExtensionDesc); ok {
+		if ed, ok := ext.(*google.ExtensionDesc); ok && checkExtendeeV1(msg.(google.Message), ed) == nil {
 			google.ClearExtension(msg.(google.Message), ed)
 			return
 		}
 	case MessageTypeGoogle:
-		if et, ok := ext.(protoreflect.ExtensionType); ok {
+		if et, ok := ext.(protoreflect.ExtensionType); ok && checkExtendee(msg.(googlev2.Message), et) == nil {
 			googlev2.ClearExtension(msg.(googlev2.Message), et)
 			return
 		}
@@ -123,6 +129,9 @@ func GetExtension(msg interface{}, ext interface{}) (interface{}, error) {
 		ed, ok := ext.(*google.ExtensionDesc)
 		if !ok {
 			return nil, fmt.Errorf("invalid extension description type %T", ext)
+		}
+		if err := checkExtendeeV1(msg.(google.Message), ed); err != nil {
+			return nil, err
 		}
 		return google.GetExtension(msg.(google.Message), ed)
 	case MessageTypeGoogle:
@@ -155,6 +164,12 @@ func checkExtendee(msg googlev2.Message, et protoreflect.ExtensionType) error {
 	return nil
 }
 
+// checkExtendeeV1 is checkExtendee for messages of the Google V1 API, whose extension functions identify an extension by its
+// field number alone.
+func checkExtendeeV1(msg google.Message, ed *google.ExtensionDesc) error {
+	return checkExtendee(google.MessageV2(msg), ed)
+}
+
 // SetExtension sets a proto2 extension field in msg to the provided value, delegating to the
 // appropriate underlying Protobuf API based on the concrete type of msg.
 func SetExtension(msg interface{}, ext interface{}, val interface{}) error {
@@ -163,6 +178,9 @@ func SetExtension(msg interface{}, ext interface{}, val interface{}) error {
 		ed, ok := ext.(*google.ExtensionDesc)
 		if !ok {
 			return fmt.Errorf("invalid extension description type %T", ext)
+		}
+		if err := checkExtendeeV1(msg.(google.Message), ed); err != nil {
+			return err
 		}
 		return google.SetExtension(msg.(google.Message), ed, val)
 	case MessageTypeGoogle:
